@@ -458,16 +458,17 @@ func (t *SymbolTable) GetOpt(s Strings) grammar.NonTerminal {
 	defer t.Unlock()
 
 	e, ok := t.strings.table.Get(s)
-	if ok {
-		return e.Opt
+	if !ok {
+		e = new(stringsEntry)
+		t.strings.table.Put(s, e)
 	}
 
-	opt := t.mapStringToNoneTerminal(s, "opt")
-	t.strings.table.Put(s, &stringsEntry{
-		Opt: opt,
-	})
+	// The same strings may already have an entry created for another operator.
+	if e.Opt == "" {
+		e.Opt = t.mapStringToNoneTerminal(s, "opt")
+	}
 
-	return opt
+	return e.Opt
 }
 
 // GetGroup generates a new non-terminal symbol for grouping a list of grammar strings.
@@ -477,16 +478,17 @@ func (t *SymbolTable) GetGroup(s Strings) grammar.NonTerminal {
 	defer t.Unlock()
 
 	e, ok := t.strings.table.Get(s)
-	if ok {
-		return e.Group
+	if !ok {
+		e = new(stringsEntry)
+		t.strings.table.Put(s, e)
 	}
 
-	group := t.mapStringToNoneTerminal(s, "group")
-	t.strings.table.Put(s, &stringsEntry{
-		Group: group,
-	})
+	// The same strings may already have an entry created for another operator.
+	if e.Group == "" {
+		e.Group = t.mapStringToNoneTerminal(s, "group")
+	}
 
-	return group
+	return e.Group
 }
 
 // GetStar generates a new non-terminal symbol for zero or more occurrences of a list of grammar strings.
@@ -496,16 +498,17 @@ func (t *SymbolTable) GetStar(s Strings) grammar.NonTerminal {
 	defer t.Unlock()
 
 	e, ok := t.strings.table.Get(s)
-	if ok {
-		return e.Star
+	if !ok {
+		e = new(stringsEntry)
+		t.strings.table.Put(s, e)
 	}
 
-	star := t.mapStringToNoneTerminal(s, "star")
-	t.strings.table.Put(s, &stringsEntry{
-		Star: star,
-	})
+	// The same strings may already have an entry created for another operator.
+	if e.Star == "" {
+		e.Star = t.mapStringToNoneTerminal(s, "star")
+	}
 
-	return star
+	return e.Star
 }
 
 // GetPlus generates a new non-terminal symbol for one or more occurrences of a list of grammar strings.
@@ -515,16 +518,17 @@ func (t *SymbolTable) GetPlus(s Strings) grammar.NonTerminal {
 	defer t.Unlock()
 
 	e, ok := t.strings.table.Get(s)
-	if ok {
-		return e.Plus
+	if !ok {
+		e = new(stringsEntry)
+		t.strings.table.Put(s, e)
 	}
 
-	plus := t.mapStringToNoneTerminal(s, "plus")
-	t.strings.table.Put(s, &stringsEntry{
-		Plus: plus,
-	})
+	// The same strings may already have an entry created for another operator.
+	if e.Plus == "" {
+		e.Plus = t.mapStringToNoneTerminal(s, "plus")
+	}
 
-	return plus
+	return e.Plus
 }
 
 func (t *SymbolTable) mapStringToNoneTerminal(s Strings, suffix string) grammar.NonTerminal {
